@@ -25,6 +25,22 @@ mod verif_c03_twins2 {
     use crate::structures::paging::page_table::PageTableLevel;
     use crate::structures::paging::{Page, PageOffset, PageSize, PageTableIndex, PhysFrame, Size1GiB, Size2MiB, Size4KiB};
 
+    /// Checks every listed clause on its own path: Kani's `assert!` also ASSUMES its condition afterwards, so in a
+    /// plain sequence a failing earlier clause would hide a failing later one (and with it the later obligation).
+    macro_rules! check_each {
+        ($( $c:expr => $m:literal ),+ $(,)?) => {{
+            let pick: u8 = kani::any();
+            let mut k: u8 = 0;
+            $(
+                if pick == k {
+                    assert!($c, $m);
+                }
+                k += 1;
+            )+
+            let _ = k;
+        }};
+    }
+
     /// "the call returned although the input is invalid": see lib/C19_NOTES.md.
     #[inline(never)]
     fn returned_on_invalid_input() {
@@ -80,7 +96,10 @@ mod verif_c03_twins2 {
         kani::assume((a as u128) < TWO52);
         kani::cover!(true, "c03_twin2_physaddr_new_exact: reachable");
         let r = PhysAddr::new(a).as_u64();
-        assert!(r == a, "C03.PhysAddr_new.returns_iff_52bit: a valid address is returned unchanged");
+        check_each! {
+            r == a
+                => "C03.PhysAddr_new.returns_iff_52bit: a valid address is returned unchanged",
+        }
     }
 
     //@ obligation C03 C03.PhysAddr_new.returns_iff_52bit
@@ -100,9 +119,15 @@ mod verif_c03_twins2 {
     fn c03_twin2_zero() {
         kani::cover!(true, "c03_twin2_zero: reachable");
         let v = VirtAddr::zero().as_u64();
-        assert!(v == 0 && canonical(v), "C03.VirtAddr_zero.valid: zero() is address 0, which is canonical");
+        check_each! {
+            v == 0 && canonical(v)
+                => "C03.VirtAddr_zero.valid: zero() is address 0, which is canonical",
+        }
         let p = PhysAddr::zero().as_u64();
-        assert!(p == 0 && (p as u128) < TWO52, "C03.PhysAddr_zero.valid: zero() is address 0, which is below 2^52");
+        check_each! {
+            p == 0 && (p as u128) < TWO52
+                => "C03.PhysAddr_zero.valid: zero() is address 0, which is below 2^52",
+        }
     }
 
     // from_ptr: returns iff the pointer's address is canonical, and then that address
@@ -113,10 +138,10 @@ mod verif_c03_twins2 {
         kani::assume(canonical(a));
         kani::cover!(true, "c03_twin2_virtaddr_from_ptr_exact: reachable");
         let r = VirtAddr::from_ptr(a as *const u8).as_u64();
-        assert!(
-            r == a && canonical(r),
-            "C03.VirtAddr_from_ptr.valid_or_panic: the pointer's address, which is canonical"
-        );
+        check_each! {
+            r == a && canonical(r)
+                => "C03.VirtAddr_from_ptr.valid_or_panic: the pointer's address, which is canonical",
+        }
     }
 
     //@ obligation C03 C03.VirtAddr_from_ptr.valid_or_panic
@@ -143,9 +168,15 @@ mod verif_c03_twins2 {
         kani::assume(virt_ok(b as i128 - rhs as i128));
         kani::cover!(true, "c03_twin2_virtaddr_assign_ops_valid: reachable");
         v += rhs;
-        assert!(canonical(v.as_u64()), "C03.VirtAddr_add_assign_u64.valid: the stored address is canonical");
+        check_each! {
+            canonical(v.as_u64())
+                => "C03.VirtAddr_add_assign_u64.valid: the stored address is canonical",
+        }
         w -= rhs;
-        assert!(canonical(w.as_u64()), "C03.VirtAddr_sub_assign_u64.valid: the stored address is canonical");
+        check_each! {
+            canonical(w.as_u64())
+                => "C03.VirtAddr_sub_assign_u64.valid: the stored address is canonical",
+        }
     }
 
     //@ obligation C03 C03.PhysAddr_add_assign_u64.valid
@@ -159,9 +190,15 @@ mod verif_c03_twins2 {
         kani::assume(phys_ok(b as i128 - rhs as i128));
         kani::cover!(true, "c03_twin2_physaddr_assign_ops_valid: reachable");
         v += rhs;
-        assert!((v.as_u64() as u128) < TWO52, "C03.PhysAddr_add_assign_u64.valid: the stored address is below 2^52");
+        check_each! {
+            (v.as_u64() as u128) < TWO52
+                => "C03.PhysAddr_add_assign_u64.valid: the stored address is below 2^52",
+        }
         w -= rhs;
-        assert!((w.as_u64() as u128) < TWO52, "C03.PhysAddr_sub_assign_u64.valid: the stored address is below 2^52");
+        check_each! {
+            (w.as_u64() as u128) < TWO52
+                => "C03.PhysAddr_sub_assign_u64.valid: the stored address is below 2^52",
+        }
     }
 
     fn page_assign_ops_valid<S: PageSize>(size: u64) {
@@ -172,16 +209,16 @@ mod verif_c03_twins2 {
         kani::assume(virt_ok(b as i128 - rhs as i128 * size as i128));
         x += rhs;
         let r = x.start_address().as_u64();
-        assert!(
-            canonical(r) && r % size == 0,
-            "C03.Page_add_assign_u64.valid: the stored page start is canonical and size-aligned"
-        );
+        check_each! {
+            canonical(r) && r % size == 0
+                => "C03.Page_add_assign_u64.valid: the stored page start is canonical and size-aligned",
+        }
         y -= rhs;
         let r = y.start_address().as_u64();
-        assert!(
-            canonical(r) && r % size == 0,
-            "C03.Page_sub_assign_u64.valid: the stored page start is canonical and size-aligned"
-        );
+        check_each! {
+            canonical(r) && r % size == 0
+                => "C03.Page_sub_assign_u64.valid: the stored page start is canonical and size-aligned",
+        }
     }
 
     //@ obligation C03 C03.Page_add_assign_u64.valid
@@ -206,16 +243,16 @@ mod verif_c03_twins2 {
         kani::assume(phys_ok(b as i128 - rhs as i128 * size as i128));
         x += rhs;
         let r = x.start_address().as_u64();
-        assert!(
-            (r as u128) < TWO52 && r % size == 0,
-            "C03.PhysFrame_add_assign_u64.valid: the stored frame start is below 2^52 and size-aligned"
-        );
+        check_each! {
+            (r as u128) < TWO52 && r % size == 0
+                => "C03.PhysFrame_add_assign_u64.valid: the stored frame start is below 2^52 and size-aligned",
+        }
         y -= rhs;
         let r = y.start_address().as_u64();
-        assert!(
-            (r as u128) < TWO52 && r % size == 0,
-            "C03.PhysFrame_sub_assign_u64.valid: the stored frame start is below 2^52 and size-aligned"
-        );
+        check_each! {
+            (r as u128) < TWO52 && r % size == 0
+                => "C03.PhysFrame_sub_assign_u64.valid: the stored frame start is below 2^52 and size-aligned",
+        }
     }
 
     //@ obligation C03 C03.PhysFrame_add_assign_u64.valid
@@ -237,10 +274,10 @@ mod verif_c03_twins2 {
     fn page_start_address_valid<S: PageSize>(size: u64) {
         let (a, x) = any_page::<S>(size);
         let r = x.start_address().as_u64();
-        assert!(
-            r == a && canonical(r) && r % size == 0,
-            "C03.Page_start_address.valid: the stored start address, canonical and size-aligned"
-        );
+        check_each! {
+            r == a && canonical(r) && r % size == 0
+                => "C03.Page_start_address.valid: the stored start address, canonical and size-aligned",
+        }
     }
 
     //@ obligation C03 C03.Page_start_address.valid
@@ -259,10 +296,10 @@ mod verif_c03_twins2 {
     fn frame_start_address_valid<S: PageSize>(size: u64) {
         let (a, x) = any_frame::<S>(size);
         let r = x.start_address().as_u64();
-        assert!(
-            r == a && (r as u128) < TWO52 && r % size == 0,
-            "C03.PhysFrame_start_address.valid: the stored start address, below 2^52 and size-aligned"
-        );
+        check_each! {
+            r == a && (r as u128) < TWO52 && r % size == 0
+                => "C03.PhysFrame_start_address.valid: the stored start address, below 2^52 and size-aligned",
+        }
     }
 
     //@ obligation C03 C03.PhysFrame_start_address.valid
@@ -291,14 +328,18 @@ mod verif_c03_twins2 {
         kani::assume(i < 512);
         kani::cover!(true, "c04_twin2_page_table_index_new_exact: reachable");
         let x = PageTableIndex::new(i);
-        assert!(
-            u16::from(x) == i,
-            "C04.PageTableIndex_new.returns_iff_lt_512: an index below 512 is stored unchanged"
-        );
-        assert!(u16::from(x) == i && u16::from(x) < 512, "C04.PageTableIndex_to_u16.value: the stored index");
-        assert!(u64::from(x) == i as u64, "C04.PageTableIndex_to_u64.value: the stored index");
-        assert!(usize::from(x) == i as usize, "C04.PageTableIndex_to_usize.value: the stored index");
-        assert!(x.into_u64() == i as u64, "C04.PageTableIndex_into_u64.value: the stored index");
+        check_each! {
+            u16::from(x) == i
+                => "C04.PageTableIndex_new.returns_iff_lt_512: an index below 512 is stored unchanged",
+            u16::from(x) == i && u16::from(x) < 512
+                => "C04.PageTableIndex_to_u16.value: the stored index",
+            u64::from(x) == i as u64
+                => "C04.PageTableIndex_to_u64.value: the stored index",
+            usize::from(x) == i as usize
+                => "C04.PageTableIndex_to_usize.value: the stored index",
+            x.into_u64() == i as u64
+                => "C04.PageTableIndex_into_u64.value: the stored index",
+        }
     }
 
     //@ obligation C04 C04.PageTableIndex_new.returns_iff_lt_512
@@ -318,10 +359,10 @@ mod verif_c03_twins2 {
         let i: u16 = kani::any();
         kani::cover!(true, "c04_twin2_page_table_index_new_truncate: reachable");
         let r = u16::from(PageTableIndex::new_truncate(i));
-        assert!(
-            r == i % 512 && r < 512,
-            "C04.PageTableIndex_new_truncate.mod_512: the index modulo 512"
-        );
+        check_each! {
+            r == i % 512 && r < 512
+                => "C04.PageTableIndex_new_truncate.mod_512: the index modulo 512",
+        }
     }
 
     //@ obligation C04 C04.PageOffset_new.returns_iff_lt_4096
@@ -333,12 +374,14 @@ mod verif_c03_twins2 {
         kani::assume(o < 4096);
         kani::cover!(true, "c04_twin2_page_offset_new_exact: reachable");
         let x = PageOffset::new(o);
-        assert!(
-            u16::from(x) == o,
-            "C04.PageOffset_new.returns_iff_lt_4096: an offset below 4096 is stored unchanged"
-        );
-        assert!(u16::from(x) == o && u16::from(x) < 4096, "C04.PageOffset_to_u16.value: the stored offset");
-        assert!(u64::from(x) == o as u64, "C04.PageOffset_to_u64.value: the stored offset");
+        check_each! {
+            u16::from(x) == o
+                => "C04.PageOffset_new.returns_iff_lt_4096: an offset below 4096 is stored unchanged",
+            u16::from(x) == o && u16::from(x) < 4096
+                => "C04.PageOffset_to_u16.value: the stored offset",
+            u64::from(x) == o as u64
+                => "C04.PageOffset_to_u64.value: the stored offset",
+        }
     }
 
     //@ obligation C04 C04.PageOffset_new.returns_iff_lt_4096
@@ -358,10 +401,10 @@ mod verif_c03_twins2 {
         let o: u16 = kani::any();
         kani::cover!(true, "c04_twin2_page_offset_new_truncate: reachable");
         let r = u16::from(PageOffset::new_truncate(o));
-        assert!(
-            r == o % 4096 && r < 4096,
-            "C04.PageOffset_new_truncate.mod_4096: the offset modulo 4096"
-        );
+        check_each! {
+            r == o % 4096 && r < 4096
+                => "C04.PageOffset_new_truncate.mod_4096: the offset modulo 4096",
+        }
     }
 
     // ================================================================ C04 PageTableLevel
@@ -393,15 +436,15 @@ mod verif_c03_twins2 {
         let (l, n) = any_level();
         kani::cover!(true, "c04_twin2_level_neighbours: reachable");
         let lo = l.next_lower_level();
-        assert!(
-            lo.is_none() == (n == 1) && (lo.is_none() || level_num(lo.unwrap()) == n - 1),
-            "C04.PageTableLevel_next_lower_level.table: None exactly for level 1, else the level numbered one less"
-        );
+        check_each! {
+            lo.is_none() == (n == 1) && (lo.is_none() || level_num(lo.unwrap()) == n - 1)
+                => "C04.PageTableLevel_next_lower_level.table: None exactly for level 1, else the level numbered one less",
+        }
         let hi = l.next_higher_level();
-        assert!(
-            hi.is_none() == (n == 4) && (hi.is_none() || level_num(hi.unwrap()) == n + 1),
-            "C04.PageTableLevel_next_higher_level.table: None exactly for level 4, else the level numbered one more"
-        );
+        check_each! {
+            hi.is_none() == (n == 4) && (hi.is_none() || level_num(hi.unwrap()) == n + 1)
+                => "C04.PageTableLevel_next_higher_level.table: None exactly for level 4, else the level numbered one more",
+        }
     }
 
     fn pow2(x: u64) -> bool {
@@ -428,14 +471,14 @@ mod verif_c03_twins2 {
             _ => 0x1_0000_0000_0000,
         };
         let t = l.table_address_space_alignment();
-        assert!(
-            t == table && pow2(t),
-            "C04.PageTableLevel_table_alignment.layout_9_9_9_9_12: 2 MiB, 1 GiB, 512 GiB, 256 TiB for levels 1-4"
-        );
+        check_each! {
+            t == table && pow2(t)
+                => "C04.PageTableLevel_table_alignment.layout_9_9_9_9_12: 2 MiB, 1 GiB, 512 GiB, 256 TiB for levels 1-4",
+        }
         let e = l.entry_address_space_alignment();
-        assert!(
-            e == entry && e == 1u64 << (12 + 9 * (n as u32 - 1)) && pow2(e),
-            "C04.PageTableLevel_entry_alignment.layout_9_9_9_9_12: 4 KiB, 2 MiB, 1 GiB, 512 GiB for levels 1-4"
-        );
+        check_each! {
+            e == entry && e == 1u64 << (12 + 9 * (n as u32 - 1)) && pow2(e)
+                => "C04.PageTableLevel_entry_alignment.layout_9_9_9_9_12: 4 KiB, 2 MiB, 1 GiB, 512 GiB for levels 1-4",
+        }
     }
 }
